@@ -273,7 +273,42 @@ class Slicer:
         for e in p.get("p", ()):
             if isinstance(e, dict) and "ix" in e:
                 self._local(body, e["ix"], seen, out)
+        # field-sensitive for aggregates built in this body: `t = (a, b); x = t.0` slices to `a` only
+        pr = p.get("p") or ()
+        if pr and isinstance(pr[0], dict) and "i" in pr[0] and "f" in pr[0]:
+            ops = self._agg_field(body, p["l"], pr[0]["i"])
+            if ops is not None:
+                for o in ops:
+                    self.atoms(body, o, seen, out)
+                return
         self._local(body, p["l"], seen, out)
+
+    def _agg_field(self, body, l, i, depth=0):
+        """operands stored in field i of local l when every definition of l is an aggregate built in this body (or a plain
+        copy / move of such a local); None if l is defined in any other way"""
+        if depth > 6 or 1 <= l <= body.argc:
+            return None
+        ds = body.defs().get(l, [])
+        if not ds:
+            return None
+        out = []
+        for bb, idx, s in ds:
+            if idx == "term" or s["p"].get("p"):
+                return None
+            r = s["r"]
+            if r["k"] == "agg" and r.get("ak") in ("tuple", "adt") and i < len(r["ops"]) and (r.get("ak") == "tuple" or len(r.get("fields", ())) == len(r["ops"])):
+                out.append(r["ops"][i])
+            elif r["k"] == "use":
+                q = op_place(r["o"])
+                if q is None or q.get("p"):
+                    return None
+                sub_ = self._agg_field(body, q["l"], i, depth + 1)
+                if sub_ is None:
+                    return None
+                out.extend(sub_)
+            else:
+                return None
+        return out
 
     def _upvar(self, body, p, seen, out):
         idx = None
@@ -895,3 +930,97 @@ def field_read_blocks(world, body, op, field, into_callees=2):
     operand(op, None)
     out.discard(None)
     return out
+
+
+# ---------------------------------------------------------------- guards carried by boolean flags
+
+def _flag_switches(body):
+    """switches on a bool local with several definitions (`let due = match .. {..}; if due {..}`):
+    yields (switch_bb, true_edges, false_edges, flag_local)"""
+    for bb, t in switch_blocks(body):
+        o = origin(body, t["d"])
+        neg = False
+        while o["k"] == "not":
+            neg = not neg
+            o = o["a"]
+        if o["k"] != "place" or not o.get("multi") or o["p"].get("p"):
+            continue
+        l = o["p"]["l"]
+        if body.tys[body.locals[l]["ty"]].get("s") != "bool":
+            continue
+        tt, ft = bool_edges(body, bb, t)
+        te, fe = [(bb, tt)], ([(bb, ft)] if ft is not None else [])
+        if neg:
+            te, fe = fe, te
+        yield bb, te, fe, l
+
+
+def _flag_defs(body, l):
+    """definitions of flag local l: list of (bb, kind, payload): ('false',), ('true',), ('op', operand) or ('call', term)"""
+    out = []
+    for bb, idx, s in body.defs().get(l, []):
+        if idx == "term":
+            out.append((bb, "call", s))
+            continue
+        r = s["r"]
+        if r["k"] == "use":
+            c = op_const(r["o"])
+            if c is not None and c.get("v") in (0, 1):
+                out.append((bb, "true" if c.get("v") == 1 else "false", None))
+            else:
+                out.append((bb, "op", r["o"]))
+        else:
+            out.append((bb, "rv", r))
+    return out
+
+
+def dominated_mod_flags(body, x, edges=(), blocks=(), depth=0):
+    """x is dominated by one of the edges / blocks, directly or through a boolean flag: x hangs on the true edge of `if flag`
+    and every definition of the flag other than `false` sits in a block that is itself dominated (recursively)"""
+    if (edges or blocks) and body.dominated_by_any(x, blocks=blocks, edges=edges):
+        return True
+    if depth > 3:
+        return False
+    for sbb, te, fe, l in _flag_switches(body):
+        if not te or not body.dominated_by_any(x, edges=te):
+            continue
+        defs = _flag_defs(body, l)
+        live = [d for d in defs if d[1] != "false"]
+        if live and all(dominated_mod_flags(body, d[0], edges, blocks, depth + 1) for d in live):
+            return True
+    return False
+
+
+def guarded_by_pred(body, x, pred, depth=0):
+    """x hangs on the true side of a test whose value satisfies pred(origin) - directly (`if test {x}`), negated with the false
+    side, or through a flag all of whose non-false definitions are such a test result or are themselves guarded"""
+    for sbb, te, fe, o in guards_on(body, pred):
+        if te and body.dominated_by_any(x, edges=te):
+            return True
+    if depth > 3:
+        return False
+    for sbb, te, fe, l in _flag_switches(body):
+        if not te or not body.dominated_by_any(x, edges=te):
+            continue
+        live = [d for d in _flag_defs(body, l) if d[1] != "false"]
+        if not live:
+            continue
+        ok = True
+        for bb, kind, pl in live:
+            if kind == "call" and pred({"k": "call", "bb": bb, "t": pl}):
+                continue
+            if kind == "op":
+                o = origin(body, pl)
+                n = 0
+                while o["k"] == "not":
+                    o = o["a"]; n += 1
+                if n % 2 == 0 and pred(o):
+                    continue
+            if kind == "rv" and pl["k"] == "bin" and pred({"k": "bin", "op": pl["op"], "a": pl["a"], "b": pl["b"], "bb": bb}):
+                continue
+            if guarded_by_pred(body, bb, pred, depth + 1):
+                continue
+            ok = False
+        if ok:
+            return True
+    return False
